@@ -892,7 +892,7 @@ def run(ctx):
     work = ponyutil.workdir('c23')
     base = os.path.join(work, 'base.sqlite')
     try:
-        n = ctx.scale(220, 3000)
+        n = ctx.scale(180, 2000)
         found = 0
         base_keys = len(ctx.violations) + len(ctx.known_hits)
         for it in range(n):
